@@ -193,6 +193,8 @@ func checkC11(r *core.Run) {
 	}
 	// T-takeover
 	ruleTakeover(r)
+	r.Rule("CAP-sched-delete: release-schedule buckets are deleted only by the consuming end-blocker")
+	ruleSchedDelete(r)
 	// T-lifetime
 	if fn := r.Func("T-lifetime", "sao/keeper.msgServer.Complete"); fn != nil {
 		res := r.Resolver(fn)
@@ -306,6 +308,8 @@ func checkC12(r *core.Run) {
 	r.Assume(aDeps)
 	r.Assume(aCG)
 	ruleReplacePaired(r)
+	r.Rule("CAP-sched-delete: timeout-check buckets are deleted only by the consuming end-blocker")
+	ruleSchedDelete(r)
 	r.Rule("G-elig-2 / T-ignore (shared with C15): the selection never returns a provider on the ignore list, and the timeout handler's ignore list holds the provider of every shard of the order — a stalled shard goes to ANOTHER provider, and the give-up branch is reachable when none is left")
 	ruleElig2(r)
 	checkIgnoreLists(r)
@@ -538,6 +542,8 @@ func checkC13(r *core.Run) {
 		cl("data-id-unused", guard.False("*model/keeper.Keeper.GetMetadata(#3.DataId)#1")),
 	}, 2)
 
+	r.Rule("CAP-sched-delete: the height-keyed schedule buckets sao:ExpiredShard / sao:TimeoutOrder are deleted only from the sao end-blocker (after consuming all entries)")
+	ruleSchedDelete(r)
 	r.Rule("T-aliaskey: SetModel / GetModel / RemoveModel sites all build the alias-index key by the same expression of the model's Owner, Alias, GroupId")
 	ruleAliasKeyShape(r, "T-aliaskey")
 
@@ -1135,4 +1141,25 @@ func ruleAliasKeyShape(r *core.Run, id string) {
 		}
 	}
 	r.Floor("alias_key_sites", len(sites), 4)
+}
+
+// ruleSchedDelete (CAP-sched-delete): a schedule bucket (all shard releases /
+// all order timeout checks of one height) is deleted only by the end-blocker
+// that has just consumed every entry of it. The buckets are keyed by height,
+// not by shard or order: a handler that deletes "its" entry by height drops
+// every other shard's (order's) entry scheduled for the same height, and those
+// are then never released (never re-examined).
+func ruleSchedDelete(r *core.Run) {
+	evalCap(r, capRule{
+		ID:   "CAP-sched-delete",
+		Desc: "height-keyed schedule buckets are deleted only by the consuming end-blocker",
+		Match: func(e *eff.Effect) (string, bool) {
+			if e.Kind == "store.delete" && eff.StoreOwner(e) == "sao" && (e.Prefix == "ExpiredShard/value/" || e.Prefix == "TimeoutOrder/value/") {
+				return "delete sao:" + e.Prefix, true
+			}
+			return "", false
+		},
+		Allowed: set("sao.EndBlock"),
+		Skip:    set("pseudo:HandleExpiredShard", "pseudo:HandleTimeoutOrder"),
+	})
 }
